@@ -51,7 +51,7 @@ def logical_call(ch: Choices, tok: str, allow_fail: bool = True, allow_notificat
                  ctx_methods: bool = False) -> LogicalCall:
     weights = [4, 2, 1, 2, 3 if allow_fail else 0, 2 if allow_fail else 0, 1, 2, 2, 1, 2,
                1 if allow_fail else 0, 1 if exotic else 0, 1 if allow_single else 0, 1, 1 if ctx_methods else 0,
-               1 if ctx_methods else 0, 1 if ctx_methods else 0]
+               1 if ctx_methods else 0, 1 if ctx_methods else 0, 1 if ctx_methods else 0, 1, 1]
     kind = ch.weighted(weights, 'call.kind')
     named = (not positional_only) and ch.flag(1, 3, 'call.named')
     notification = allow_notification and ch.flag(1, 4, 'call.notification')
@@ -94,6 +94,12 @@ def logical_call(ch: Choices, tok: str, allow_fail: bool = True, allow_notificat
     elif kind == 13:
         method, argmap = 'single', [('value', ch.choice([{'a': 1}, {'value': 2}, [1], 'v', 0, {}], 'arg.single'))]
         tok = None  # type: ignore[assignment]
+    elif kind == 20:
+        method, argmap = 'vstatic', [('tok', tok)]
+    elif kind == 19:
+        method, argmap = '_status', [('tok', tok)]
+    elif kind == 18:
+        method, argmap = '\u043d\u0435\u0442/none \u2713 \U0001F600', [('tok', tok)]
     elif kind == 17:
         method, argmap = 'echo_guarded', [('tok', tok)]
     elif kind == 15:
